@@ -1,5 +1,6 @@
 import Lox.Rang3.Model
 import Lox.Rang3.Proofs
+import Lox.Rang3.ClassText
 /-! Property theorems for C15 (character classes and literals denote exact code-point sets).
 Only statements that are part of the property live here; helper lemmas are in `Lox.Rang3.Proofs`. -/
 namespace Lox.Props.C15
@@ -138,6 +139,29 @@ theorem eval_den (e : ClassExpr) (hv : ∀ r ∈ e.items, Valid r) (c : Int) :
     rcases List.mem_append.1 hx with hx | hx
     · exact (eval_flat l hl).1 x hx
     · exact (eval_flat r hr).1 x hx
+
+/-- From the text between `[` and `]` to the AST (`parser.on_char_class`): the items are the written
+items in order. An escaped dash `\\-` (a `CLASS_CHAR` token with code point 45) is a character wherever
+it stands; only an unescaped dash between two characters forms a range. -/
+theorem class_items_as_written (ws : List Written) :
+    classItems (spell ws) = ws.map Written.toRange := classItems_spell ws
+
+/-- … hence a written class `~?[w₁ … wₙ]` with `From ≤ To` in every range matches exactly the union of
+its written items (complemented in `0 … 0x10FFFF` under `~`). -/
+theorem class_text_den (neg : Bool) (ws : List Written)
+    (hv : ∀ w ∈ ws, Valid w.toRange) (c : Int) :
+    Den (ClassExpr.cls neg (classItems (spell ws))).eval c ↔
+      meaning (.cls neg (ws.map Written.toRange)) c := by
+  rw [classItems_spell]
+  exact eval_den _ (by
+    intro r hr
+    simp only [ClassExpr.items, List.mem_map] at hr
+    obtain ⟨w, hw, rfl⟩ := hr
+    exact hv w hw) c
+
+/-- `[a\\-z]` is the three characters a, `-`, z; `[a-z]` is the range (non-vacuity of the two readings). -/
+example : classItems (spell [.single 97, .single 45, .single 122]) = [⟨97, 97⟩, ⟨45, 45⟩, ⟨122, 122⟩] ∧
+    classItems (spell [.range 97 122]) = [⟨97, 122⟩] := by decide
 
 /-- `.` matches exactly the code points `0 … 0x10FFFF`. -/
 theorem dot_den (c : Int) : Den ClassExpr.dot.eval c ↔ 0 ≤ c ∧ c ≤ maxRune := by
